@@ -1136,16 +1136,17 @@ func NewSingleAddressWallet(priv types.PrivateKey, cm ChainManager, store Single
 		}
 	})
 
-	// rebroadcast transactions in a separate goroutine
+	// rebroadcast transactions in a separate goroutine. The goroutine is
+	// registered with the thread group before it starts, so that Close waits
+	// for it even when it is called before the goroutine was scheduled.
+	ctx, cancel, err := sw.tg.AddContext(context.Background())
+	if err != nil {
+		stop()
+		return nil, fmt.Errorf("failed to add context: %w", err)
+	}
 	go func() {
-		defer stop()
-
-		ctx, cancel, err := sw.tg.AddContext(context.Background())
-		if err != nil {
-			sw.log.Error("failed to add context", zap.Error(err))
-			return
-		}
 		defer cancel()
+		defer stop()
 
 		// debounce rebroadcasting during heavy syncing
 		debounce := time.NewTimer(cfg.RebroadcastDebounceInterval)
